@@ -59,7 +59,7 @@ def one(job):
         res['demo_mutated_exit'] = rc
         res['demo_tail'] = out[-400:]
         if not args.skip_suite:
-            rc, out = sh([PY, '-m', 'pytest', '-q', '-p', 'no:cacheprovider', '-n', '4', '--timeout=900',
+            rc, out = sh([PY, '-m', 'pytest', '-q', '-p', 'no:cacheprovider', '-n', '4', '--timeout=150',
                           '--continue-on-collection-errors', 'tests'], cwd=wt, env=env, timeout=3000)
             m = re.findall(r'^(?:\d+ failed, )?\d+ passed.*$', out, re.M)
             res['suite'] = m[-1] if m else out[-200:]
